@@ -51,6 +51,7 @@ var checks = map[string]func() int{
 	"C11": checkC11,
 	"C12": checkC12,
 	"C13": checkC13,
+	"C14": checkC14,
 	"C15": checkC15,
 	"C17": checkC17,
 	"C16": checkC16,
